@@ -208,6 +208,34 @@ def run_fuzz(spec, res):
             drive(sent, xmlschema, schema, lambda: text, case)
             if len(res.samples) < 2:
                 res.sample({'family': fam, 'mutation': kind, 'value_class': vclass, 'chars': len(text)})
+        if d % 4 == 0:
+            # out-of-range values at *every* attribute and text position of the document (one position at a time): the
+            # places where a typed value is computed are few and position-specific (fixed values, identity fields, ...)
+            positions = [(p, 'attr', i) for p, n in doc.walk() for i in range(len(n.attrs)) if n.attrs[i][0] != D.XSI] + \
+                        [(p, 'text', None) for p, n in doc.walk() if not n.children]
+            for p, where, i in [pos for pos in positions for _ in OVERFLOWING]:
+                sweep_k = sweep_k + 1 if 'sweep_k' in locals() else 0
+                vclass, value = OVERFLOWING[sweep_k % len(OVERFLOWING)]
+                tree = copy.deepcopy(doc)
+                node = tree.at(p)
+                if where == 'attr':
+                    node.attrs[i] = (node.attrs[i][0], node.attrs[i][1], value)
+                else:
+                    node.text = value
+                try:
+                    text = D.render_doc(tree, fam, rng)
+                except (ValueError, KeyError):
+                    continue
+                case = {'family': fam, 'version': version, 'mutation': 'overflow_sweep:' + where, 'value': vclass,
+                        'doc': text if len(text) < 6000 else text[:6000]}
+                res.nontrivial.add(env.h8((fam, 'overflow_sweep', where, vclass, p)))
+                res.count('mutation:overflow_sweep')
+                drive(sent, xmlschema, schema, lambda: text, case)
+
+
+OVERFLOWING = [('huge-year', '99999999999999999999'), ('huge-date', '99999999999999999999-01-01'),
+               ('huge-duration', 'P99999999999999999999Y'), ('huge-exponent', '1e999999999'),
+               ('huge-datetime', '-99999999999999999999-12-31T00:00:00Z'), ('huge-integer', '9' * 400)]
 
 
 class Truncating(io.RawIOBase):
